@@ -204,6 +204,36 @@ def senseGetRelated (db : Db) (w : Wordnet) (s : SenseData) (types : List String
 def senseGetRelatedSynsets (db : Db) (w : Wordnet) (s : SenseData) (types : List String) : List SynsetData :=
   dedupBy synKey ((senseIterSynsetRelations db w s types).map (·.2))
 
+/-- `_Relatable.closure(*types)` over `get_related`, visited by entity identity; fuel =
+number of stored synsets + 2 rounds of the queue is not enough in general, so the fuel counts
+queue pops: every pop either discards a visited entity or visits a new one -/
+def closureGen {α κ} [BEq κ] (related : α → List α) (key : α → κ) : Nat → List α → List κ → List α → List α
+  | 0, _, _, acc => acc.reverse
+  | _, [], _, acc => acc.reverse
+  | f+1, x :: q, seen, acc =>
+    if seen.contains (key x) then closureGen related key f q seen acc
+    else closureGen related key f (q ++ related x) (key x :: seen) (x :: acc)
+
+def synsetClosure (db : Db) (w : Wordnet) (x : SynsetData) (types : List String) (n : Nat) : List SynsetData :=
+  closureGen (fun y => synsetGetRelated db w y types) synKey (n * n + n + 2) (synsetGetRelated db w x types) [] []
+
+def senseClosure (db : Db) (w : Wordnet) (x : SenseData) (types : List String) (n : Nat) : List SenseData :=
+  closureGen (fun y => senseGetRelated db w y types) (·.rowid) (n * n + n + 2) (senseGetRelated db w x types) [] []
+
+/-- `relation_paths` on synsets (`visited` is a Python set of Synsets: membership by hash
+(ili, lexid, rowid) and `==` by rowid) -/
+def synPathsExtend (related : SynsetData → List SynsetData) : Nat → List (Option String × Nat × Nat) → SynsetData → List (List SynsetData)
+  | 0, _, _ => []
+  | f+1, vis, x =>
+    let nxt := (related x).filter (fun t => !vis.contains (synKey t))
+    if nxt.isEmpty then [[]]
+    else nxt.flatMap (fun t => (synPathsExtend related f (synKey t :: vis) t).map (t :: ·))
+
+def synsetRelationPaths (db : Db) (w : Wordnet) (x : SynsetData) (types : List String) (n : Nat) : List (List SynsetData) :=
+  let related := fun y => synsetGetRelated db w y types
+  ((related x).filter (fun t => t.rowid != x.rowid)).reverse.flatMap
+    (fun t => (synPathsExtend related n [synKey t, synKey x] t).map (t :: ·))
+
 /-- `Synset.translate(lexicon, lang)`: synsets of a fresh Wordnet sharing the ILI -/
 def synsetTranslate (db : Db) (x : SynsetData) (lexicon lang : Option String) : Option (List SynsetData) :=
   match x.ili with
